@@ -83,6 +83,9 @@ func runC13(c *Ctx, r *Report, tier string) {
 					if !good && len(stores) == 1 {
 						good = c.rebuiltByHelper(ip, stores[0], al)
 					}
+					if !good && len(stores) == 1 {
+						good = c.rebuiltLockstep(ip, stores[0]) || c.rebuiltByJoin(ip, stores[0])
+					}
 					if good {
 						origins = append(origins, "&(key:unquoted)")
 					} else {
@@ -126,7 +129,14 @@ func runC13(c *Ctx, r *Report, tier string) {
 		nUq++
 		var t string
 		c.within(ci.Frames, func() { t = c.term(s.(*ssa.Call).Call.Args[0]) })
-		r.Check(t == `after(iniValue.Value(new:iniValue), ":")`, "FUNNEL", in_, "map value part: text after the first colon", c.ipos(s), "Unquote(after(value, \":\")): as convert splits on the command line", "the quoted map value is taken from "+trunc(t, 100))
+		aft := `after(iniValue.Value(new:iniValue), ":")`
+		if t == `phi{"" | `+aft+`}` || t == `phi{`+aft+` | ""}` {
+			// `key, value := whole, ""; if colon found { key, value = before, after }`: under len(value) != 0 the value is the after part
+			if _, ne := c.Requires(ip, isInstr(s), litIs("nonempty("+t+")", true), nil); ne {
+				t = aft
+			}
+		}
+		r.Check(t == aft, "FUNNEL", in_, "map value part: text after the first colon", c.ipos(s), "Unquote(after(value, \":\")): as convert splits on the command line", "the quoted map value is taken from "+trunc(t, 100))
 	}
 	r.Check(nUq == 1, "FUNNEL", in_, "one unquote of a map value", c.pos(ip.Pos()), "one", fmt.Sprintf("%d", nUq))
 	// no store to reflect values / direct conversion in parse
@@ -154,13 +164,16 @@ func runC13(c *Ctx, r *Report, tier string) {
 			// every way the matcher can answer true: the lower-cased tag equals the lower-cased name,
 			// and the option HAS an ini-name tag (an empty entry name must not match options without one)
 			eqT := `(call:strings.ToLower(call:(*multiTag).Get(&Option.tag(P0), "ini-name")) == call:strings.ToLower(P1))`
+			// (the lower-cased name may be computed once by the caller: optionByName hands the matcher the very name it was
+			// given — priority 4's test is dyncall(matcher; option, P1) — and that name is the entry's name, checked above)
+			eqT2 := `(call:strings.ToLower(call:(*multiTag).Get(&Option.tag(P0), "ini-name")) == call:strings.ToLower(` + c.term(call.Call.Args[1]) + `))`
 			tagT := `nonempty(call:(*multiTag).Get(&Option.tag(P0), "ini-name"))`
 			if os, ok := c.verdictOrigins(matcher, true); ok && len(os) > 0 {
 				okM, okTag = true, true
 				for _, fs := range os {
 					hasEq, hasTag := false, false
 					for _, f := range fs {
-						if f.pos && c.term(f.cond) == eqT {
+						if f.pos && (c.term(f.cond) == eqT || c.term(f.cond) == eqT2) {
 							hasEq = true
 						}
 						if l := c.cond(f.cond); l.Term == tagT && l.Pos == f.pos {
@@ -588,4 +601,85 @@ func dbg13(n int) {
 	if os.Getenv("GF_DBG13") != "" {
 		fmt.Fprintf(os.Stderr, "rebuilt: exit %d\n", n)
 	}
+}
+
+// rebuiltLockstep: the rebuilt entry is key + ":" + value where key and value are the lockstep pair
+// `key, value := whole, ""` overridden by `before, after` when a colon was found, value possibly replaced by its
+// Unquote — and the rebuild happens only under len(value) != 0, i.e. only when the colon was found.
+func (c *Ctx) rebuiltLockstep(ip *ssa.Function, st *ssa.Store) bool {
+	x := `iniValue.Value(new:iniValue)`
+	keyPhi := "phi{before(" + x + `, ":") | ` + x + "}"
+	keyPhi2 := "phi{" + x + " | before(" + x + `, ":")}`
+	valPhi := `phi{"" | after(` + x + `, ":")}`
+	valPhi2 := "phi{after(" + x + `, ":") | ""}`
+	tv := c.term(st.Val)
+	okKey := strings.HasPrefix(tv, "(("+keyPhi+` + ":") + `) || strings.HasPrefix(tv, "(("+keyPhi2+` + ":") + `)
+	okVal := strings.Contains(tv, "call:strconv.Unquote("+valPhi+")#0") || strings.Contains(tv, "call:strconv.Unquote("+valPhi2+")#0")
+	if !okKey || !okVal {
+		return false
+	}
+	_, ne := c.Requires(ip, isInstr(st), func(l Lit) bool { return l.Pos && (l.Term == "nonempty("+valPhi+")" || l.Term == "nonempty("+valPhi2+")") }, nil)
+	if !ne {
+		return false
+	}
+	// lockstep: the two phis sit in one block and take their "not found" members on the same edge
+	var kp, vp *ssa.Phi
+	for _, b := range c.blocks(ip) {
+		for _, in := range b.Instrs {
+			if ph, ok := in.(*ssa.Phi); ok {
+				switch c.term(ph) {
+				case keyPhi, keyPhi2:
+					kp = ph
+				case valPhi, valPhi2:
+					vp = ph
+				}
+			}
+		}
+	}
+	if kp == nil || vp == nil || kp.Block() != vp.Block() || len(kp.Edges) != len(vp.Edges) {
+		return false
+	}
+	for i := range kp.Edges {
+		keyWhole := c.term(kp.Edges[i]) == x
+		valEmpty := c.term(vp.Edges[i]) == `""`
+		if keyWhole != valEmpty {
+			return false
+		}
+	}
+	return true
+}
+
+// rebuiltByJoin: the rebuilt entry is strings.Join(parts, ":") of the two parts of SplitN(value, ":", 2) after
+// parts[1] was replaced in place by its Unquote.
+func (c *Ctx) rebuiltByJoin(ip *ssa.Function, st *ssa.Store) bool {
+	x := `iniValue.Value(new:iniValue)`
+	if c.term(st.Val) != "call:strings.Join(call:strings.SplitN("+x+`, ":", 2), ":")` {
+		return false
+	}
+	call, ok := c.resolve(st.Val).(*ssa.Call)
+	if !ok {
+		return false
+	}
+	parts := c.resolve(call.Call.Args[0])
+	n := 0
+	for _, b := range c.blocks(ip) {
+		for _, in := range b.Instrs {
+			s2, ok := in.(*ssa.Store)
+			if !ok {
+				continue
+			}
+			ia, ok := s2.Addr.(*ssa.IndexAddr)
+			if !ok || c.resolve(ia.X) != parts {
+				continue
+			}
+			k, isK := constInt(ia.Index)
+			if !isK || k != 1 || !strings.HasPrefix(c.term(s2.Val), "call:strconv.Unquote(after("+x+`, ":"))#0`) {
+				return false // some other element store
+			}
+			n++
+		}
+	}
+	// the join is reached only with two parts
+	_, two := c.Requires(ip, isInstr(st), litIs("has("+x+`, ":")`, true), nil)
+	return n == 1 && two
 }
